@@ -287,6 +287,13 @@ fn consuming<E: Elem>(ctx: &mut VCtx, name: &str, expect: Vec<u32>, f: impl FnOn
                 ctx.ev("alloc_refused")
             }
             // an overflowing size computation is reported by unwinding as well (std::vec::Vec does the same here)
+            // (for one-byte elements the absurd request is still a representable layout: the base allocator itself
+            // cannot serve it and the method unwinds with the allocation error instead)
+            PanicKind::AllocError if name.contains("lying size hint") => {
+                ledger_prop = "C07";
+                ctx.rep.count("capacity_overflow_unwound");
+                ctx.ev("panic_matched_model")
+            }
             PanicKind::Msg(m) if m.contains("capacity overflow") && name.contains("lying size hint") => {
                 ledger_prop = "C07";
                 ctx.rep.count("capacity_overflow_unwound");
@@ -575,8 +582,11 @@ where
                         expect.extend(exp_model.iter().copied());
                         // one in four: the replacement iterator claims an absurd lower size bound, so making room for the
                         // tail overflows the capacity computation and the method unwinds with "capacity overflow"
-                        let lie = ctx.rng.chance(1, 4);
-                        let hint = if lie { usize::MAX / 2 } else { n_new };
+                        // (not while a callback panic is armed: `Splice::drop` would then run during unwinding and its own
+                        // "capacity overflow" panic would abort the process - as it would with std's Vec)
+                        let lie = ctx.rng.chance(1, 4) && !tr::fuel_armed();
+                        // (so large that the capacity computation fails for every element size before any allocation is tried)
+                        let hint = if lie { usize::MAX - 8 } else { n_new };
                         consuming::<E>(ctx, &format!("BumpVec::splice {a}..{b} with {n_new} new{}, pulling {take} front / {take_back} back", if lie { " (lying size hint)" } else { "" }), expect, || {
                             let mut out: Vec<u32> = Vec::new();
                             {
